@@ -174,8 +174,9 @@ Definition device_refuses (c : cfg) (s : state) (pc : pcfg) (n : N) : option boo
 Definition veto (pc : pcfg) (n : N) : bool := mem n (pc_veto pc).
 
 (* ---------- PortManager::GenericPatchPort (fixed: SetUniverse before leaving the old universe,
-   the veto is reported) *)
-Definition patch (c : cfg) (s : state) (p n : N) : outcome :=
+   the veto is reported).  [vt pc] is the port's PreSetUniverse(old, new) verdict (true = refuse),
+   whatever it depends on. *)
+Definition patch_v (vt : pcfg -> bool) (c : cfg) (s : state) (p n : N) : outcome :=
   match port_of c s p with
   | None => Ok s (RBool false)                                 (* if (!port) return false *)
   | Some pc =>
@@ -193,8 +194,8 @@ Definition patch (c : cfg) (s : state) (p n : N) : outcome :=
         let (o', s1) := get_or_create n s in
         (* port->SetUniverse(new_universe): same object => true, else ask PreSetUniverse *)
         let accepted := match s_puniv s p with
-                        | Some o => (o =? o') || negb (veto pc n)
-                        | None => negb (veto pc n) end in
+                        | Some o => (o =? o') || negb (vt pc)
+                        | None => negb (vt pc) end in
         if accepted then
           let s2 := set_puniv s1 (upd (s_puniv s1) p (Some o')) in
           match (match s_puniv s p with
@@ -216,20 +217,28 @@ Definition patch (c : cfg) (s : state) (p n : N) : outcome :=
     end
   end.
 
-(* PortManager::GenericUnPatchPort (PreSetUniverse(old, NULL) is assumed to accept) *)
-Definition unpatch (c : cfg) (s : state) (p : N) : outcome :=
+(* the number-based veto of round 1: PreSetUniverse refuses the listed universe numbers *)
+Definition patch (c : cfg) (s : state) (p n : N) : outcome := patch_v (fun pc => veto pc n) c s p n.
+
+(* PortManager::GenericUnPatchPort (fixed, fixes/02: SetUniverse(NULL) is asked first and a refusal
+   leaves the port patched).  [vt pc] is PreSetUniverse(old, NULL)'s verdict (true = refuse). *)
+Definition unpatch_v (vt : pcfg -> bool) (c : cfg) (s : state) (p : N) : outcome :=
   match port_of c s p with
   | None => Ok s (RBool false)
   | Some pc =>
     match s_puniv s p with
     | None => Ok s (RBool true)
     | Some o =>
+      if vt pc then Ok s (RBool false)
+      else
       match uni_remove_port (pc_in pc) p o s with
       | None => Dangling
       | Some s1 => Ok (set_puniv s1 (upd (s_puniv s1) p None)) (RBool true)
       end
     end
   end.
+
+Definition unpatch (c : cfg) (s : state) (p : N) : outcome := unpatch_v (fun _ => false) c s p.
 
 (* PortManager::SetPriorityStatic(port, uint8_t value) + Basic*Port::SetPriority *)
 Definition prio_static (c : cfg) (s : state) (p v : N) : outcome :=
